@@ -114,7 +114,9 @@ def run(tier):
     r0 = vf.run_scripts('regp', [['sizeof']], 'C09', name='probe', record=True)
     import json
     F = json.loads(open(r0.records[0]).read().split('\n')[1])['o'][0]
-    ss = list(scripts(rnd, quick, F))
+    ss = []
+    for rnd in vf.rounds(tier, 6):
+        ss += list(scripts(rnd, quick, F))
     vf.trace_flow(v, 'RegpTrace.tla', 'RegpTrace.cfg', 'regp', ss, 'rxs')
     v.cov['distinct_nontrivial'] += len(set(l for s in ss for l in s))
     v.notes['sizeof_RPFrame'] = F
